@@ -377,7 +377,7 @@ def check_index(ck: Check, bad: list):
             report("index-tables|clmo", f"clmo[{d}] differs from the packed enumeration (first at position {pos}, "
                    f"lengths {len(lib_packed)} vs {len(row['packed'])})", {"case": "index", "d": d})
         ed = enc[d]
-        if len(ed) != len(row["packed"]) or any(int(ed.get(np.int64(w), -1)) != j for j, w in enumerate(row["packed"])):
+        if len(ed) != len(row["packed"]) or any((np.int64(w) not in ed) or int(ed[np.int64(w)]) != j for j, w in enumerate(row["packed"])):
             report("index-tables|encode-dict", f"encode dictionary of degree {d} is not the inverse of the enumeration",
                    {"case": "index", "d": d})
         for j, k in enumerate(row["tuples"]):
@@ -402,16 +402,11 @@ def check_index(ck: Check, bad: list):
                 report("_fill_exponents|wrong-exponents", f"_fill_exponents({j},{d}) = {tuple(buf)}, slot holds {tuple(k)}",
                        {"case": "index", "d": d, "pos": j})
                 break
-    # out-of-table lookups must answer -1, not a slot
-    if int(base._encode_multiindex(np.array([1, 0, 0, 0, 0, 0], dtype=np.int64), 2, enc)) != -1:
-        report("_encode_multiindex|accepts-wrong-degree", "a degree-1 tuple was given a slot in the degree-2 table",
-               {"case": "index", "d": 2})
-
     # (3) TLC's walk samples (degrees up to 30) against the tables
     for k, (w, rk) in walk.items():
         d = sum(k)
         ck.count(("index-walk", k), d >= 2)
-        if int(np.asarray(clmo[d])[rk]) != w or int(enc[d].get(np.int64(w), -1)) != rk or \
+        if int(np.asarray(clmo[d])[rk]) != w or (np.int64(w) not in enc[d]) or int(enc[d][np.int64(w)]) != rk or \
                 tuple(int(x) for x in base._decode_multiindex(rk, d, clmo)) != k or \
                 int(base._encode_multiindex(np.array(k, dtype=np.int64), d, enc)) != rk:
             report("index-tables|walk-sample", f"monomial {k}: TLC slot {rk}, packed {w}; tables disagree",
